@@ -10,7 +10,7 @@ import z3
 
 from .core import REAL, INT
 
-TRANSC = ('exp', 'ln', 'log10', 'sqrt', 'pow10')
+TRANSC = ('u_exp', 'u_ln', 'u_log10', 'u_sqrt', 'u_pow10')
 _sk = itertools.count()
 
 
@@ -51,86 +51,102 @@ def collect_apps(terms, names):
     return out
 
 
+def _negated(a):
+    """b if a is syntactically -b (unary minus or (-1)*b), else None"""
+    if z3.is_app_of(a, z3.Z3_OP_UMINUS):
+        return a.arg(0)
+    if z3.is_mul(a) and a.num_args() == 2:
+        x, y = a.arg(0), a.arg(1)
+        if z3.is_rational_value(x) and x.numerator_as_long() == -1 and x.denominator_as_long() == 1:
+            return y
+        if z3.is_rational_value(y) and y.numerator_as_long() == -1 and y.denominator_as_long() == 1:
+            return x
+    return None
+
+
 def transc_axioms(terms, uf, rounds=2):
     """ground instances for the uninterpreted exp/ln/log10/sqrt/pow10 occurring in `terms`"""
     ax = []
     if not any(n in uf for n in TRANSC):
         return ax
-    F = {n: uf.get(n) or z3.Function(n, REAL, REAL) for n in TRANSC}
+    F = {n: (uf[n] if n in uf else z3.Function(n, REAL, REAL)) for n in TRANSC}
     exp, ln, log10, sqrt, pow10 = (F[n] for n in TRANSC)
     x = z3.Real('x?')
     # always-true quantified basics with patterns (reach terms under binders)
-    if 'exp' in uf:
+    if 'u_exp' in uf:
         ax.append(z3.ForAll([x], exp(x) > 0, patterns=[exp(x)]))
         ax.append(exp(z3.RealVal(0)) == 1)
-    if 'pow10' in uf:
+    if 'u_pow10' in uf:
         ax.append(z3.ForAll([x], pow10(x) > 0, patterns=[pow10(x)]))
         ax.append(pow10(z3.RealVal(0)) == 1)
         ax.append(pow10(z3.RealVal(1)) == 10)
-    if 'sqrt' in uf:
+    if 'u_sqrt' in uf:
         ax.append(z3.ForAll([x], z3.Implies(x >= 0, z3.And(sqrt(x) >= 0, sqrt(x) * sqrt(x) == x)), patterns=[sqrt(x)]))
-    if 'ln' in uf:
+    if 'u_ln' in uf:
         ax.append(ln(z3.RealVal(1)) == 0)
-    if 'log10' in uf:
+    if 'u_log10' in uf:
         ax.append(log10(z3.RealVal(1)) == 0)
         ax.append(log10(z3.RealVal(10)) == 1)
     terms = list(terms)
-    for _ in range(rounds):
+    for rnd in range(rounds):
         apps = collect_apps(terms + ax, TRANSC)
         new = []
-        ea = list(apps['exp'].values())
+        ea = list(apps['u_exp'].values())
         for t in ea:
             a = t.arg(0)
             new.append(t > 0)
             new.append((a <= 0) == (t <= 1))
             new.append((a >= 0) == (t >= 1))
-            if 'ln' in uf:
+            if 'u_ln' in uf:
                 new.append(ln(t) == a)
             if z3.is_add(a) and a.num_args() == 2:
                 new.append(t == exp(a.arg(0)) * exp(a.arg(1)))
             if z3.is_sub(a) and a.num_args() == 2:
                 new.append(t * exp(a.arg(1)) == exp(a.arg(0)))
             new.append(t >= 1 + a)        # tangent at 0
-        for t1, t2 in itertools.combinations(ea, 2):
+            neg = _negated(a)
+            if neg is not None:
+                new.append(t * exp(neg) == 1)
+        for t1, t2 in (itertools.combinations(ea, 2) if rnd == 0 else ()):
             new.append((t1.arg(0) <= t2.arg(0)) == (t1 <= t2))
-        la = list(apps['ln'].values())
+        la = list(apps['u_ln'].values())
         for t in la:
             a = t.arg(0)
-            if 'exp' in uf:
+            if 'u_exp' in uf:
                 new.append(z3.Implies(a > 0, exp(t) == a))
             new.append(z3.Implies(a > 0, (a <= 1) == (t <= 0)))
             if z3.is_div(a):
                 new.append(z3.Implies(z3.And(a.arg(0) > 0, a.arg(1) > 0), t == ln(a.arg(0)) - ln(a.arg(1))))
             if z3.is_mul(a) and a.num_args() == 2:
                 new.append(z3.Implies(z3.And(a.arg(0) > 0, a.arg(1) > 0), t == ln(a.arg(0)) + ln(a.arg(1))))
-        for t1, t2 in itertools.combinations(la, 2):
+        for t1, t2 in (itertools.combinations(la, 2) if rnd == 0 else ()):
             new.append(z3.Implies(z3.And(t1.arg(0) > 0, t2.arg(0) > 0), (t1.arg(0) <= t2.arg(0)) == (t1 <= t2)))
-        ga = list(apps['log10'].values())
+        ga = list(apps['u_log10'].values())
         for t in ga:
             a = t.arg(0)
-            if 'pow10' in uf:
+            if 'u_pow10' in uf:
                 new.append(z3.Implies(a > 0, pow10(t) == a))
             new.append(z3.Implies(a > 0, (a <= 1) == (t <= 0)))
             if z3.is_div(a):
                 new.append(z3.Implies(z3.And(a.arg(0) > 0, a.arg(1) > 0), t == log10(a.arg(0)) - log10(a.arg(1))))
-        for t1, t2 in itertools.combinations(ga, 2):
+        for t1, t2 in (itertools.combinations(ga, 2) if rnd == 0 else ()):
             new.append(z3.Implies(z3.And(t1.arg(0) > 0, t2.arg(0) > 0), (t1.arg(0) <= t2.arg(0)) == (t1 <= t2)))
-        pa = list(apps['pow10'].values())
+        pa = list(apps['u_pow10'].values())
         for t in pa:
             a = t.arg(0)
             new.append(t > 0)
             new.append((a <= 0) == (t <= 1))
-            if 'log10' in uf:
+            if 'u_log10' in uf:
                 new.append(log10(t) == a)
             if z3.is_add(a) and a.num_args() == 2:
                 new.append(t == pow10(a.arg(0)) * pow10(a.arg(1)))
-        for t1, t2 in itertools.combinations(pa, 2):
+        for t1, t2 in (itertools.combinations(pa, 2) if rnd == 0 else ()):
             new.append((t1.arg(0) <= t2.arg(0)) == (t1 <= t2))
-        sa = list(apps['sqrt'].values())
+        sa = list(apps['u_sqrt'].values())
         for t in sa:
             a = t.arg(0)
             new.append(z3.Implies(a >= 0, z3.And(t >= 0, t * t == a)))
-        for t1, t2 in itertools.combinations(sa, 2):
+        for t1, t2 in (itertools.combinations(sa, 2) if rnd == 0 else ()):
             new.append(z3.Implies(z3.And(t1.arg(0) >= 0, t2.arg(0) >= 0), (t1.arg(0) <= t2.arg(0)) == (t1 <= t2)))
         ax.extend(new)
     return ax
@@ -153,17 +169,23 @@ def to_smt2(ctx, hyps, goal, extra_axioms=()):
     return s.to_smt2()
 
 
-def check_z3_text(text, timeout_ms):
-    s = z3.Solver()
-    s.set('timeout', int(timeout_ms))
-    s.from_string(text)
+def check_z3_text(text, timeout_ms, seeds=(0,)):
+    """z3 on one SMT-LIB text; on `unknown` the same query is retried with other random seeds
+    (non-linear arithmetic is sensitive to the search order), each with the full budget"""
     t = time.time()
-    r = s.check()
-    dt = time.time() - t
-    reason = ''
-    if r == z3.unknown:
+    r, reason = z3.unknown, ''
+    for seed in seeds:
+        s = z3.Solver()
+        s.set('timeout', int(timeout_ms))
+        if seed:
+            s.set('random_seed', seed)
+            s.set('smt.random_seed', seed)
+        s.from_string(text)
+        r = s.check()
+        if r != z3.unknown:
+            break
         reason = s.reason_unknown()
-    return str(r), dt, reason
+    return str(r), time.time() - t, reason
 
 
 def check_cvc5_text(text, timeout_s):
@@ -191,7 +213,7 @@ def check_cvc5_text(text, timeout_s):
 def _work(job):
     name, text, timeout_ms, use_cvc5 = job
     try:
-        r, dt, reason = check_z3_text(text, timeout_ms)
+        r, dt, reason = check_z3_text(text, timeout_ms, seeds=(0, 7, 13))
         backend = 'z3'
         if r != 'unsat' and use_cvc5:
             r2, dt2 = check_cvc5_text(text, max(5.0, timeout_ms / 1000.0))
